@@ -12,10 +12,12 @@ def run(chk):
         'response buffer or writes a state cell has the same atom. C02.c: rejecting leaves (guard holds the negated atom, or any '
         'Err) have no cell write and no buffer write; every read of the vendor-ID selector cell is preceded by a write in the same '
         'leaf, so no output depends on what an earlier (possibly rejected) packet left there. Thorough tier: the callee is '
-        'smbus_pec::pec of the version pinned in Cargo.lock.')
+        'smbus_pec::pec of the version pinned in Cargo.lock (C02.d: pin, shape, per-byte table = CRC-8/0x07 from its MIR) and '
+        'C02.e: on that derived table the step is GF(2)-linear and injective and none of the 255 x 8 bursts of at most eight '
+        'bits is absorbed, which with C02.a/b gives the burst-error clause.')
     chk.rules_text = 'R-dom over the leaves of decode_packet and process_packet; effect lists of rejecting leaves; read-after-write on the selector cell'
     chk.assumptions = [
-        'not decided: the burst-error clause (no corruption confined to 8 consecutive bits is accepted) is the CRC theorem for a degree-8 generator with non-zero constant term applied to a comparison covering every byte; only that structural premise (C02.a/b) is decided',
+        'the burst-error clause (no corruption confined to 8 consecutive bits is accepted) is decided in the thorough tier only (C02.e): linearity, injectivity and the 2040 burst cases on the per-byte table derived from the MIR of smbus_pec::pec, composed with C02.a/b (acceptance compares the last byte with the PEC of every byte before it); the quick tier decides the structural premise C02.a/b only',
         'process_packet under the valid-configuration precondition (C10 owns its panic leaves)',
     ]
     pa = pec_atom()
@@ -74,4 +76,4 @@ def run(chk):
     chk.floor('accepting / acting leaves (plus reported unanalysable paths)', n_ok, 20)
     if chk.tier == 'thorough':
         import pec_params
-        pec_params.check_pin(chk)
+        pec_params.check(chk, shape='C02.d', table='C02.d', burst='C02.e')
